@@ -392,3 +392,43 @@ Proof.
   rewrite (usage_delta_spec before after id Hid Hcb Hca).
   fold (stored_usage before id). rewrite (Hok id Hid). unfold Datatypes.id. lia.
 Qed.
+
+(* ---------- reachable states in which no instance is named "consul" ---------- *)
+Inductive CReachNC : st -> Prop :=
+| CReachNC_init : CReachNC st0
+| CReachNC_step idx c s : CReachNC s -> no_consul (services (apply idx c s).1) -> CReachNC (apply idx c s).1.
+
+Lemma UsageOK_st0 : UsageOK st0.
+Proof.
+  intros id Hid. apply svc_usage_ids_cases in Hid.
+  destruct Hid as [->|[->|[->|[->|[->|[->|[->|[->| ->]]]]]]]]; vm_compute; reflexivity.
+Qed.
+
+Theorem usage_recomputed s : CReachNC s -> UsageOK s /\ no_consul (services s).
+Proof.
+  induction 1 as [|idx c s _ [IHu IHc] Hnc].
+  - split; [apply UsageOK_st0|]. intros k v Hk. cbn in Hk. rewrite lookup_empty in Hk. discriminate.
+  - split; [|exact Hnc]. unfold apply in *. destruct (exec idx c s) as [s' r]. cbn [fst] in *.
+    apply commit_usage_ok; [exact IHu|exact IHc|exact Hnc].
+Qed.
+
+(* a decidable way to exhibit such states *)
+Definition no_consul_b (m : gmap (string * string) svc) : bool :=
+  bool_decide (map_Forall (fun _ v => sv_name v ≠ consul_name) m).
+Lemma no_consul_b_spec m : no_consul_b m = true -> no_consul m.
+Proof. unfold no_consul_b. intros H. apply bool_decide_eq_true in H. exact H. Qed.
+
+Fixpoint run_nc (log : list (N * cmd)) (s : st) : bool :=
+  match log with
+  | [] => true
+  | (idx, c) :: rest => let s' := (apply idx c s).1 in no_consul_b (services s') && run_nc rest s'
+  end.
+
+Lemma run_nc_reach log : forall s, CReachNC s -> run_nc log s = true -> CReachNC (run log s).1.
+Proof.
+  induction log as [|[idx c] log IH]; intros s Hs; cbn [run_nc run]; [intros _; exact Hs|].
+  intros Hb. apply andb_true_iff in Hb as [Hb1 Hb2].
+  pose proof (CReachNC_step idx c s Hs (no_consul_b_spec _ Hb1)) as Hs'.
+  specialize (IH _ Hs' Hb2). destruct (apply idx c s) as [s' r]. cbn [fst] in *.
+  destruct (run log s') as [s'' rs]. exact IH.
+Qed.
